@@ -737,3 +737,32 @@ func verifH_C05_number_exponent() {
 	verifAssert(err == nil && found && verifSame(got, wants[k]), "C05 exponent: a number in exponent form decodes to its value")
 	verifReach("end")
 }
+
+//verif:harness id=C05 tier=quick,thorough witness=end bounds="a required deepObject query parameter whose schema declares no properties, only additionalProperties (a string schema): sent with one or two members (texts of 1 printable byte) or not at all: present => found, decoded to the members that were sent, accepted; absent => reported as missing"
+func verifH_C05_deepobject_free_form() {
+	obj := &openapi3.Schema{Type: &openapi3.Types{"object"}, AdditionalProperties: openapi3.AdditionalProperties{Schema: verifPrimSchema("string")}}
+	n := verifChoose("members", 3)
+	q := url.Values{"other": []string{"1"}}
+	want := map[string]any{}
+	for i, k := range []string{"a", "b"}[:n] {
+		v := verifLeaf("v"+string(rune('1'+i)), 1, "[]=&")
+		q["obj["+k+"]"] = []string{v}
+		want[k] = v
+	}
+	explode := true
+	param := &openapi3.Parameter{Name: "obj", In: "query", Style: "deepObject", Explode: &explode, Required: true, Schema: &openapi3.SchemaRef{Value: obj}}
+	input := &RequestValidationInput{QueryParams: q, Request: &http.Request{Method: "GET", Header: http.Header{}, URL: &url.URL{Path: "/"}}, PathParams: map[string]string{}, Options: &Options{}}
+	got, found, err := decodeStyledParameter(param, input)
+	verr := ValidateParameter(context.Background(), input, param)
+	if n == 0 {
+		verifAssert(err == nil && !found, "C05 free-form: an absent parameter is not found")
+		verifAssert(verr != nil, "C05 free-form: an absent required parameter is reported as missing")
+		verifReach("end")
+		return
+	}
+	verifAssert(err == nil && found, "C05 free-form: a parameter that was sent is found")
+	m, ok := got.(map[string]any)
+	verifAssert(ok && len(m) == n && verifSame(m["a"], want["a"]) && (n < 2 || verifSame(m["b"], want["b"])), "C05 free-form: the decoded value has the members that were sent")
+	verifAssert(verr == nil, "C05 free-form: a required parameter that was sent and satisfies its schema is accepted")
+	verifReach("end")
+}
